@@ -2,7 +2,7 @@
 import itertools
 
 ID = "C14"
-LEAN_MODULES = ["GoaktVerif.Props.C14"]
+LEAN_MODULES = ["GoaktVerif.Props.C14", "GoaktVerif.Props.C14.Conc"]
 THEOREMS = [
     "GoaktVerif.C14.applyOp_nodes",
     "GoaktVerif.C14.applyOp_len_inv",
@@ -16,22 +16,51 @@ THEOREMS = [
     "GoaktVerif.C14.C14_holds",
     "GoaktVerif.C14.C14_stack",
     "GoaktVerif.C14.C14_never_deaf",
+    # concurrent layer (behavior_stack.go at atomic-operation granularity, all schedules)
+    "GoaktVerif.C14.Conc.inv_init",
+    "GoaktVerif.C14.Conc.inv_step",
+    "GoaktVerif.C14.Conc.abs_exec",
+    "GoaktVerif.C14.Conc.conc_refines",
+    "GoaktVerif.C14.Conc.conc_reachable",
+    "GoaktVerif.C14.Conc.conc_peek_result",
+    "GoaktVerif.C14.Conc.conc_pop_empty_result",
+    "GoaktVerif.C14.Conc.conc_pop_result",
+    "GoaktVerif.C14.Conc.conc_len_inv",
+    "GoaktVerif.C14.Conc.conc_len_quiescent",
+    "GoaktVerif.C14.Conc.conc_len_reset_diverges",
+    "GoaktVerif.C14.Conc.conc_len_transient_negative",
+    "GoaktVerif.C14.Conc.conc_solo_step",
+    "GoaktVerif.C14.Conc.conc_solo",
 ]
 INPKG = ["actor/zz_verif_c14.go"]
+# engine E3: the real behavior_stack.go under controlled schedules; SITES = the atomic-site sequence per
+# function that Model/C14/Conc.lean mirrors (a change of the atomic structure breaks the correspondence)
+INSTRUMENT = ["actor/behavior_stack.go"]
+SITES = {
+    "actor/behavior_stack.go:behaviorStack.Len": ["Load:length"],
+    "actor/behavior_stack.go:behaviorStack.Peek": ["Load:top"],
+    "actor/behavior_stack.go:behaviorStack.Pop": ["Load:top", "Load:next", "Add:length", "CAS:top"],
+    "actor/behavior_stack.go:behaviorStack.Push": ["Load:top", "Add:length", "CAS:top"],
+    "actor/behavior_stack.go:behaviorStack.Reset": ["Store:top", "Store:length"],
+}
 TIMEOUT = 1500
 MANIFEST = {
-    "level_text": "Kernel-checked theorems over a model of behaviorStack (nodes + length counter) + PID.setBehavior/resetBehavior/setBehaviorStacked/unsetBehaviorStacked + handleReceived (Peek once per message): for ALL message streams and ALL switch scripts, with no guard, the handler of every message is the top of the DOCUMENTED stack at the start of that message (Become replaces, BecomeStacked pushes, UnBecomeStacked pops but never the base, UnBecome leaves only the default) and every call made while a message is handled is executed by the behaviour that started it (C14_holds, C14_inprogress, induction under the representation invariant length = node count); the stack left behind and Len() are the documented ones (C14_stack) and no message is ever left without a handler (C14_never_deaf). The model is tied to /repo on every run by a differential against a real actor in a real actor system driven through Tell and the public ReceiveContext API.",
-    "level_note": "Tie is a differential (exhaustive over all op sequences up to length 6 over 8 op tokens in the thorough tier, up to length 3 plus random scripts up to 20 calls in the quick tier), not a translation of the Go source; the CAS retry loops of the lock-free stack are modelled as atomic steps (switch calls come from the single goroutine that is handling the message, under fieldsLocker); Restart re-pushing the default and reset() on shutdown are outside the model.",
-    "technique": "Lean 4 proof (induction over message streams and scripts, refinement to the documented list stack) + model/implementation differential through a real actor system",
+    "level_text": "Kernel-checked theorems over a model of behaviorStack (nodes + length counter) + PID.setBehavior/resetBehavior/setBehaviorStacked/unsetBehaviorStacked + handleReceived (Peek once per message): for ALL message streams and ALL switch scripts, with no guard, the handler of every message is the top of the DOCUMENTED stack at the start of that message (Become replaces, BecomeStacked pushes, UnBecomeStacked pops but never the base, UnBecome leaves only the default) and every call made while a message is handled is executed by the behaviour that started it (C14_holds, C14_inprogress, induction under the representation invariant length = node count); the stack left behind and Len() are the documented ones (C14_stack) and no message is ever left without a handler (C14_never_deaf). The model is tied to /repo on every run by a differential against a real actor in a real actor system driven through Tell and the public ReceiveContext API. Concurrent layer (Model/C14/Conc, Props/C14/Conc): behavior_stack.go at atomic-operation granularity (one transition per sync/atomic site, any number of threads, any programs, EVERY schedule): the linked chain is a linearizable stack (conc_refines: each step changes the abstract stack by exactly the sequential effect of its linearization point; returned values are the sequential ones), Len() is refuted as linearizable (conc_len_transient_negative: reads -1; conc_len_reset_diverges: with a concurrent Reset counter and chain disagree forever) and proved eventually consistent without Reset (conc_len_inv, conc_len_quiescent) and exact at every operation boundary for one thread, which is how the PID uses it under fieldsLocker (conc_solo); tied by lockstep replay of the real code under controlled schedules (yieldinject labels, SITES).",
+    "level_note": "Tie is a differential (exhaustive over all op sequences up to length 6 over 8 op tokens in the thorough tier, up to length 3 plus random scripts up to 20 calls in the quick tier), not a translation of the Go source; in the PID-level model the stack operations are atomic steps (justified by conc_solo: all PID callers hold fieldsLocker and run on the handler goroutine, i.e. one logical thread); the concurrent layer covers the CAS loops; the one unlocked caller, pid.reset() from doStop, can interleave its two stores with a handler's Push/Pop (conc_len_reset_diverges) - the actor is stopped then and resetBehavior rebuilds the stack on restart, so it is not observable through the behaviour API; linearization points are identified by the step-level forward simulation, there is no separate history-level theorem; sync/atomic assumed sequentially consistent; Go's GC never reuses a node somebody points to (no ABA).",
+    "technique": "Lean 4 proof (induction over message streams and scripts, refinement to the documented list stack; inductive invariant + forward simulation over a small-step model of the lock-free stack, all schedules) + model/implementation differential through a real actor system + lockstep replay of the real stack under controlled schedules (yield injection)",
 }
 TRUSTED = [
+    "sync/atomic operations are sequentially consistent; plain statements between two atomic sites execute with the preceding site (the granularity yieldinject gives the real code); Go's GC keeps a node alive while a goroutine points to it, so node addresses are never reused (the model allocates a fresh address at the successful CAS)",
+    "the uint64 length counter is modelled as an Int (exact while fewer than 2^63 operations ran; a wrapped counter reads as -1 through int(...), as in Go)",
     "harness/verifdrv/c14: numbered closures as behaviours, counting mailbox wrapper around the real UnboundedMailbox for quiescence detection",
     "switch calls are only made from inside handlers (one goroutine at a time), so the lock-free stack's CAS loops never retry; they are modelled as atomic steps",
 ]
 RULE = ("case = stream of messages, each carrying the switch calls its handler makes (B1-3 Become, S1-3 BecomeStacked, P UnBecomeStacked, U UnBecome); "
         "quick: every op sequence of length <= 3 one call per message, plus random scripts up to 20 calls grouped randomly into messages and followed by a pop-drain; "
         "thorough: every op sequence of length <= 6, every grouping of every sequence of length <= 4, 3000 random; "
-        "non-trivial = at least one message sent; distinct by (case, output)")
+        "bs: the bare behaviorStack under controlled schedules: 1-4 threads of Push/Pop/Peek/Len/Reset with distinct pushed values, schedules of 0-40 entries then round-robin completion "
+        "(250 quick / 6000 thorough; shapes: one thread, handler + concurrent Reset, no Reset, anything); "
+        "non-trivial = at least one message sent / a trace produced; distinct by (case, output)")
 EXHAUSTIVE = {"quick": False, "thorough": True}
 EXPLANATION = ("thorough tier enumerates all 8^0+..+8^6 = 299593 sequences over the 8 op tokens (4 ops x 3 behaviours) one call per message with a final probe, "
                "and all message groupings of the 4681 sequences of length <= 4")
@@ -101,7 +130,66 @@ def _random_case(rng, maxops):
     return _line(out)
 
 
+def _bs_case(rng, nthreads, maxops, schedlen, reset):
+    """bs | prog0 ; prog1 ; ... | schedule  — ops p<k> o k l r; distinct pushed values"""
+    vid = 1
+    progs = []
+    for _ in range(nthreads):
+        ops = []
+        for _ in range(rng.randint(1, maxops)):
+            r = rng.random()
+            if r < 0.4:
+                ops.append(f"p{vid}")
+                vid += 1
+            elif r < 0.7:
+                ops.append("o")
+            elif r < 0.8:
+                ops.append("k")
+            elif r < 0.92 or not reset:
+                ops.append("l")
+            else:
+                ops.append("r")
+        progs.append(ops)
+    sched = []
+    while len(sched) < schedlen:
+        t = rng.randrange(nthreads)
+        sched += [t] * rng.choice([1, 1, 2, 2, 3, 5])
+    return "bs | " + " ; ".join(" ".join(p) for p in progs) + " | " + " ".join(map(str, sched[:schedlen]))
+
+
+BS_WITNESSES = [
+    "bs | p1 ; r | 0 0 1 1 0",            # Reset between a push's CAS and its Add: chain empty, len=1 for ever
+    "bs | p1 ; o l | 0 0 1 1 1 1 1",      # Len() reads -1 transiently
+    "bs | p1 p2 o l ; o k ; r l | 0 0 1 1 1 2 0 0",
+    "bs | p1 p2 p3 o o o o l | ",         # one thread: sequential stack
+    "bs | p1 r p2 l k | 0 0 0",
+]
+
+
+def _bs_cases(rng, tier):
+    n = 250 if tier == "quick" else 6000
+    cases = list(BS_WITNESSES)
+    for _ in range(n):
+        shape = rng.random()
+        if shape < 0.15:    # the PID-level shape: one thread, Reset allowed
+            cases.append(_bs_case(rng, 1, 8, rng.randint(0, 10), True))
+        elif shape < 0.30:  # handler thread + a concurrent Reset (external Shutdown)
+            c = _bs_case(rng, 1, 5, 0, True)
+            progs = c.split("|")[1].strip()
+            sched = " ".join(str(rng.randrange(2)) for _ in range(rng.randint(0, 16)))
+            cases.append(f"bs | {progs} ; r | {sched}")
+        elif shape < 0.65:  # 2-3 threads, no Reset: linearizable stack, counter eventually consistent
+            cases.append(_bs_case(rng, rng.randint(2, 3), 4, rng.randint(0, 30), False))
+        else:               # anything goes
+            cases.append(_bs_case(rng, rng.randint(2, 4), 4, rng.randint(0, 40), True))
+    return cases
+
+
 def gen_cases(rng, tier):
+    return _t_cases(rng, tier) + _bs_cases(rng, tier)
+
+
+def _t_cases(rng, tier):
     cases = ["t -", "t |", "t S1,U|P||", "t S1|U|P||", "t B1|S2|U|P||"]
     maxlen = 3 if tier == "quick" else 6
     for L in range(1, maxlen + 1):
@@ -119,6 +207,10 @@ def gen_cases(rng, tier):
 
 
 def search_cases(rng, tier):
+    return _t_search(rng, tier) + _bs_cases(rng, "quick") + [_bs_case(rng, rng.randint(2, 4), 5, rng.randint(10, 60), rng.random() < 0.5) for _ in range(1500)]
+
+
+def _t_search(rng, tier):
     cases = ["t S1,U|P||", "t S1|U|P||", "t P||", "t B1|P||"]
     for L in range(1, 5):
         for seq in itertools.product(OPS, repeat=L):
@@ -184,6 +276,62 @@ def _impl_obs(impl):
         return None
 
 
+def _is_bs(case):
+    return case.split("|")[0].split() == ["bs"]
+
+
+def _bs_oracle(case, impl):
+    """property oracle on the real stack's output under a controlled schedule (python; the Lean side is the
+    model replay): values are conserved, a value is popped at most once, a single-thread run is a sequential
+    stack with a truthful Len(), and without Reset the final counter equals the final chain depth."""
+    if impl == "bad-case":
+        return None
+    try:
+        tpart, rpart, fpart = [x.strip() for x in impl.split("|")]
+        progs = [p.split() for p in case.split("|")[1].split(";")]
+        res = [r.split(",") if r else [] for r in rpart[1:].strip().split(";")] if rpart[1:].strip() else [[] for _ in progs]
+        fin = dict(kv.split("=") for kv in fpart[1:].split())
+    except Exception:
+        return "unparsable E3 output: " + impl[:200]
+    if "unfinished" in fpart or "!stuck" in tpart or " cap" in (" " + tpart):
+        return "the stack operations did not terminate under the schedule: " + impl[:200]
+    if len(res) != len(progs) or any(len(a) != len(b) for a, b in zip(res, progs)):
+        return "wrong number of results: " + impl[:200]
+    pushed = [int(op[1:]) for p in progs for op in p if op.startswith("p")]
+    popped = [int(r) for p, rs in zip(progs, res) for op, r in zip(p, rs) if op == "o" and r != "nil"]
+    chain = [] if fin.get("chain", "-") == "-" else [int(x) for x in fin["chain"].split(".")]
+    has_reset = any(op == "r" for p in progs for op in p)
+    if len(set(popped)) != len(popped):
+        return f"a value was popped twice: {popped}"
+    if any(v not in pushed for v in popped + chain):
+        return "a value appeared that was never pushed"
+    if set(popped) & set(chain):
+        return "a popped value is still on the stack"
+    if not has_reset:
+        if sorted(popped + chain) != sorted(pushed):
+            return f"values lost: pushed {sorted(pushed)} popped {sorted(popped)} left {chain}"
+        if int(fin["len"]) != len(chain):
+            return f"no Reset anywhere, all operations finished, but Len()={fin['len']} and {len(chain)} nodes are linked"
+    if len(progs) == 1:
+        st = []
+        for op, r in zip(progs[0], res[0]):
+            if op.startswith("p"):
+                st.insert(0, int(op[1:])); exp = "ok"
+            elif op == "o":
+                exp = str(st.pop(0)) if st else "nil"
+            elif op == "k":
+                exp = str(st[0]) if st else "nil"
+            elif op == "l":
+                exp = str(len(st))
+            else:
+                st = []; exp = "ok"
+            if r != exp:
+                return f"single thread: {op} returned {r}, a sequential stack returns {exp}"
+        if chain != st or int(fin["len"]) != len(st):
+            return f"single thread: final chain {chain} len {fin['len']}, sequential stack {st}"
+    return None
+
+
 def compare(case, impl, model):
     if impl == "HANG-skipped":
         return None  # not run: the harness gave up after several HANG cases (those are reported)
@@ -195,6 +343,9 @@ def is_trivial(case, impl):
 
 
 def tag(case, impl):
+    if _is_bs(case):
+        progs = case.split("|")[1].split(";")
+        return f"bs:threads={len(progs)}:{'reset' if any('r' in p.split() for p in progs) else 'noreset'}"
     msgs = _parse(case) or []
     n = sum(len(m) for m in msgs)
     b = "0" if n == 0 else "1-3" if n <= 3 else "4-6" if n <= 6 else "7-12" if n <= 12 else "13+"
@@ -203,6 +354,12 @@ def tag(case, impl):
 
 
 def oracle(case, impl, judge):
+    if _is_bs(case):
+        if impl.startswith(("CRASH deadline", "CRASH timeout-abort", "CRASH too-many-crashes")):
+            return None
+        if impl.startswith(("CRASH", "panic")):
+            return "harness failed: " + impl
+        return _bs_oracle(case, impl)
     if impl == "HANG-skipped":
         return None
     if impl in ("CRASH deadline", "CRASH timeout-abort", "CRASH too-many-crashes"):
@@ -231,10 +388,24 @@ def oracle(case, impl, judge):
 
 
 def classify(case, impl, why):
+    if _is_bs(case):
+        return None
     return None  # no open finding (C14-F1 was fixed in /repo)
 
 
 def shrink(case):
+    if _is_bs(case):
+        cfg, progs, sched = case.split("|")
+        ps = [p.split() for p in progs.split(";")]
+        sc = sched.split()
+        for i in range(len(sc)):
+            yield f"bs | {' ; '.join(' '.join(p) for p in ps)} | {' '.join(sc[:i] + sc[i + 1:])}"
+        for i, p in enumerate(ps):
+            for j in range(len(p)):
+                q = ps[:i] + [p[:j] + p[j + 1:]] + ps[i + 1:]
+                if all(q):
+                    yield f"bs | {' ; '.join(' '.join(x) for x in q)} | {' '.join(sc)}"
+        return
     msgs = _parse(case)
     if not msgs:
         return
